@@ -240,6 +240,18 @@ fn any_vertex_2d_g1(n: u64) -> Vertex<f64, i32, 2> {
     Vertex::new_with_uuid(p, uuid_n(n), Some(n as i32))
 }
 
+/// Coordinate in {-1, -0.0, +0.0, 1}: signed zeros are equal coordinates for every dedup policy.
+fn any_coord_g1_signed_zero() -> f64 {
+    let v = any_grid(1);
+    let neg_zero: bool = kani::any();
+    if v == 0 && neg_zero { -0.0 } else { f64::from(v) }
+}
+
+fn any_vertex_2d_g1z(n: u64) -> Vertex<f64, i32, 2> {
+    let p = Point::new([any_coord_g1_signed_zero(), any_coord_g1_signed_zero()]);
+    Vertex::new_with_uuid(p, uuid_n(n), Some(n as i32))
+}
+
 fn coords_eq(a: &Vertex<f64, i32, 2>, b: &Vertex<f64, i32, 2>) -> bool {
     a.point().coords()[0] == b.point().coords()[0] && a.point().coords()[1] == b.point().coords()[1]
 }
@@ -288,12 +300,14 @@ fn check_exact_dedup(input: &[Vertex<f64, i32, 2>; 3], out: &[Vertex<f64, i32, 2
 }
 
 harness! {
-    // bound: dedup_vertices_exact, n=3, D=2, coordinates in {-1,0,1}, distinct UUIDs
+    // bound: dedup_vertices_exact, n=3, D=2, coordinates in {-1,-0.0,+0.0,1}, distinct UUIDs
     #[kani::unwind(6)]
     fn c17_dedup_exact_n3() {
-        let input = [any_vertex_2d_g1(1), any_vertex_2d_g1(2), any_vertex_2d_g1(3)];
+        let input = [any_vertex_2d_g1z(1), any_vertex_2d_g1z(2), any_vertex_2d_g1z(3)];
         let out = dedup_vertices_exact(&input);
         check_exact_dedup(&input, &out);
+        kani::cover!(out.len() == 2 && input[0].point().coords()[0].to_bits() != input[1].point().coords()[0].to_bits()
+            && coords_eq(&input[0], &input[1]), "duplicates differing only in the sign of zero reached");
         kani::cover!(out.len() == 1, "all three equal reached");
         kani::cover!(out.len() == 2, "one duplicate reached");
         kani::cover!(out.len() == 3, "no duplicate reached");
@@ -302,12 +316,14 @@ harness! {
 }
 
 harness! {
-    // bound: dedup_vertices_exact_sorted (hook), n=3, D=2, coordinates in {-1,0,1}, distinct UUIDs
+    // bound: dedup_vertices_exact_sorted (hook), n=3, D=2, coordinates in {-1,-0.0,+0.0,1}, distinct UUIDs
     #[kani::unwind(6)]
     fn c17_dedup_exact_sorted_n3() {
-        let input = [any_vertex_2d_g1(1), any_vertex_2d_g1(2), any_vertex_2d_g1(3)];
+        let input = [any_vertex_2d_g1z(1), any_vertex_2d_g1z(2), any_vertex_2d_g1z(3)];
         let out = hooks::dedup_vertices_exact_sorted(input.to_vec());
         check_exact_dedup(&input, &out);
+        kani::cover!(out.len() == 2 && input[0].point().coords()[0].to_bits() != input[1].point().coords()[0].to_bits()
+            && coords_eq(&input[0], &input[1]), "duplicates differing only in the sign of zero reached");
         kani::cover!(out.len() == 1, "all three equal reached");
         kani::cover!(out.len() == 2, "one duplicate reached");
         kani::cover!(out.len() == 3, "no duplicate reached");
